@@ -630,6 +630,16 @@ class XPathToken(Token[ta.XPathTokenType]):
             elif relational and not is_ordered_pair(op1, op2, self.parser.version):
                 raise TypeError(f"values of type {type(op1)} are not ordered")
 
+            # Two untyped values are compared as strings. An untyped value compared with a
+            # date/time, a duration or a binary value is cast to the type of that operand.
+            if isinstance(op1, UntypedAtomic) and isinstance(op2, UntypedAtomic):
+                yield op1.value, op2.value
+                continue
+            elif isinstance(op2, UntypedAtomic) and \
+                    isinstance(op1, (AbstractDateTime, Duration, AbstractBinary)):
+                yield op1, type(op1).make(op2.value, parser=self.parser)
+                continue
+
             # An untyped value compared with a decimal or an integer is cast to xs:double,
             # then the other operand is promoted to xs:double too.
             if isinstance(op1, UntypedAtomic):
